@@ -30,8 +30,10 @@ namespace occa {
 
     template <class ReturnType>
     void setupReturnMemoryArray(const int size) const {
+      // The buffer must hold exactly [size] entries: the host-side reduction
+      // combines returnMemory.length() values
       size_t bytes = sizeof(ReturnType) * size;
-      if (bytes > returnMemory.size()) {
+      if (bytes != returnMemory.byte_size()) {
         returnMemory = device_.template malloc<ReturnType>(size);
       }
       returnMemory.setDtype(dtype::get<ReturnType>());
